@@ -80,7 +80,7 @@ PROPS = {
         "Machine-checked proof for all schedules at machine level; the cleanup entry function body and the table are regenerated from channels_fsm.go each run; the real FSM is driven through every (status x ending x event queued while the cleanup handler is held) case.",
         GO_SM + "; 'settles' assumes the handler goroutine is scheduled; closing through the manager is covered by nodeapi (close monitors), closing at the transport by the transport suite",
         corr=NODE_CORR),
-    "C11": P("props/C11.v", ["fsmpause", "nodeapi"],
+    "C11": P("props/C11.v", ["fsmpause", "nodeapi", "transport", "e2e"],
         "Coq theorems over the generated actions (only a party's own pause/resume events write its flag; flags follow actions where valid; invalid requests leave the record unchanged; derived views); exhaustive pause/resume interleavings on the real channels.Channels",
         "Machine-checked proof at FSM level for every record and event, with all pause/resume interleavings up to the tier's length enumerated against the real code in every status.",
         "manager-level effects (transport pause/resume, announcement messages, stay-paused rule) are in Node.v and tied to the code by nodeapi with direct monitors",
